@@ -5,6 +5,7 @@ import Zlink.Model.DriverChain
 import Zlink.Model.DriverSrv
 import Zlink.Model.DriverEnv
 import Zlink.Model.DriverIdl
+import Zlink.Model.DriverNotif
 /-! `zmodel`: reads case lines on stdin, prints for each the model's observation and the Lean
     oracle's verdict on the implementation's observation. -/
 
@@ -17,6 +18,8 @@ def handleLine (line : String) : String :=
   | "ser" :: _ => DriverSer.handle ts
   | "chain" :: _ => DriverChain.handle ts
   | "srv" :: _ => DriverSrv.handle ts
+  | "notif" :: _ => DriverNotif.handle ts
+  | "once" :: _ => DriverNotif.handle ts
   | "idl" :: _ => DriverIdl.handle ts
   | "idlrt" :: _ => DriverIdl.handle ts
   | "reply" :: _ => DriverEnv.handle ts
